@@ -61,6 +61,15 @@ enum E1 {
     C { x: u8, y: Vec<u16> },
 }
 
+/// cases with exactly ONE unnamed field of every kind of type: a tuple, a derived struct, an array, a string
+#[derive(DMarshal, DUnmarshal, DSignature, Debug, PartialEq)]
+enum E2 {
+    P((u8, String)),
+    Q(S1),
+    R(Vec<u8>),
+    S(String),
+}
+
 type T2 = (u8, u64);
 type VU = Vec<u64>;
 dbus_variant_sig!(MS, CaseU => u32; CaseS => String; CaseT => T2; CaseV => VU);
@@ -270,7 +279,7 @@ fn enum_case<E, T>(
                 let mut full = vec![0u8; phase];
                 full.extend_from_slice(bytes);
                 full.push(0x5A);
-                let kind = if name.starts_with("E1") { "derive" } else { "catchall" };
+                let kind = if name.starts_with("E1") || name.starts_with("E2") { "derive" } else { "catchall" };
                 let req2 = format!("c16.enum {} {} {} {} {}", kind, bo_name(bo), cases, phase, hex(&full));
                 let r = guard(|| redecode(&full, bo, phase));
                 let obs = match &r {
@@ -296,6 +305,10 @@ fn enum_case<E, T>(
 
 fn re_e1(buf: &[u8], bo: ByteOrder, phase: usize) -> Result<(Option<Vec<u8>>, usize, String), ()> {
     let (v, n) = decode_at::<E1>(buf, bo, phase)?;
+    Ok((marshal_at(&v, bo, phase), n, format!("{:?}", v)))
+}
+fn re_e2(buf: &[u8], bo: ByteOrder, phase: usize) -> Result<(Option<Vec<u8>>, usize, String), ()> {
+    let (v, n) = decode_at::<E2>(buf, bo, phase)?;
     Ok((marshal_at(&v, bo, phase), n, format!("{:?}", v)))
 }
 fn re_ms(buf: &[u8], bo: ByteOrder, phase: usize) -> Result<(Option<Vec<u8>>, usize, String), ()> {
@@ -330,6 +343,13 @@ fn run_enums(out: &mut Out, rng: &mut Prng, n: usize) {
         enum_case(out, "E1::A", &E1::A(u), &u, "u,(st),(yaq)", 0, &re_e1);
         enum_case(out, "E1::B", &E1::B(su.0.clone(), su.1), &su, "u,(st),(yaq)", 1, &re_e1);
         enum_case(out, "E1::C", &E1::C { x: c.0, y: c.1.clone() }, &c, "u,(st),(yaq)", 2, &re_e1);
+        let ys = <(u8, String)>::gen(rng, 0);
+        let yt = <(u8, u64)>::gen(rng, 0);
+        let ay = <Vec<u8>>::gen(rng, 2);
+        enum_case(out, "E2::P", &E2::P(ys.clone()), &ys, "(ys),(yt),ay,s", 0, &re_e2);
+        enum_case(out, "E2::Q", &E2::Q(S1 { a: yt.0, b: yt.1 }), &yt, "(ys),(yt),ay,s", 1, &re_e2);
+        enum_case(out, "E2::R", &E2::R(ay.clone()), &ay, "(ys),(yt),ay,s", 2, &re_e2);
+        enum_case(out, "E2::S", &E2::S(s.clone()), &s, "(ys),(yt),ay,s", 3, &re_e2);
         enum_case(out, "MS::U", &MS::CaseU(u), &u, "u,s,(yt),at", 0, &re_ms);
         enum_case(out, "MS::S", &MS::CaseS(s.clone()), &s, "u,s,(yt),at", 1, &re_ms);
         enum_case(out, "MS::T", &MS::CaseT(t), &t, "u,s,(yt),at", 2, &re_ms);
@@ -432,6 +452,125 @@ fn run_unknown(out: &mut Out, rng: &mut Prng, rounds: usize) {
     }
 }
 
+/// The conversions of `params::conversion`: a Rust value turned into a `Param` by `From` (by value and by reference) is
+/// the same value: same bytes and signature as the typed API gives, and `TryFrom<&Base>` gives the value back bit for bit.
+fn run_conversions(out: &mut Out) {
+    use rustbus::params::{Base, Container, Param};
+    use std::convert::TryFrom;
+    fn bytes_of_param(p: &Param, bo: ByteOrder, phase: usize) -> Option<Vec<u8>> {
+        let mut buf = vec![0u8; phase];
+        let mut fds = Vec::new();
+        let mut ctx = MarshalContext { buf: &mut buf, fds: &mut fds, byteorder: bo };
+        rustbus::wire::marshal::container::marshal_param(p, &mut ctx).ok()?;
+        Some(buf[phase..].to_vec())
+    }
+    fn sig_of_param(p: &Param) -> String {
+        let mut s = String::new();
+        p.sig().to_str(&mut s);
+        s
+    }
+    macro_rules! conv {
+        ($t:ty, $code:expr, $vals:expr, $bits:expr) => {{
+            let vals: Vec<$t> = $vals;
+            for v in vals {
+                let name = format!("{}:{:?}", $code, $bits(&v));
+                let by_val: Param = Param::from(v.clone());
+                let base_ref: Base = Base::from(&v);
+                let by_ref: Param = Param::Base(base_ref);
+                for bo in ORDERS {
+                    for phase in [0usize, 5] {
+                        let want = marshal_at(&v, bo, phase);
+                        let a = bytes_of_param(&by_val, bo, phase);
+                        let b = bytes_of_param(&by_ref, bo, phase);
+                        out.hit("conversion_case");
+                        if a != want || b != want || want.is_none() {
+                            out.violation(
+                                &format!("c16.conv {} {} {}", name, bo_name(bo), phase),
+                                &format!("Param::from(value) {:?}, Param::from(&value) {:?}, typed marshal {:?}", a.as_ref().map(|x| hex(x)), b.as_ref().map(|x| hex(x)), want.as_ref().map(|x| hex(x))),
+                            );
+                        }
+                    }
+                }
+                if sig_of_param(&by_val) != $code || sig_of_param(&by_ref) != $code {
+                    out.violation(&format!("c16.conv {}", name), &format!("signature of the converted Param is {:?} / {:?}", sig_of_param(&by_val), sig_of_param(&by_ref)));
+                }
+                // and back
+                if let Param::Base(b) = &by_val {
+                    match <$t>::try_from(b) {
+                        Ok(back) => {
+                            if $bits(&back) != $bits(&v) {
+                                out.violation(&format!("c16.conv {}", name), &format!("TryFrom<&Base> gives {:?} back", $bits(&back)));
+                            }
+                        }
+                        Err(_) => out.violation(&format!("c16.conv {}", name), "TryFrom<&Base> of the converted value fails"),
+                    }
+                }
+            }
+        }};
+    }
+    conv!(u8, "y", vec![0, 1, 0x7f, 0x80, 0xff], |v: &u8| *v as u64);
+    conv!(u16, "q", vec![0, 1, 0x0102, 0x8000, 0xffff], |v: &u16| *v as u64);
+    conv!(u32, "u", vec![0, 1, 0x01020304, 0x80000000, u32::MAX], |v: &u32| *v as u64);
+    conv!(u64, "t", vec![0, 1, 0x0102030405060708, 1 << 63, u64::MAX], |v: &u64| *v);
+    conv!(i16, "n", vec![0, -1, 0x0102, i16::MIN, i16::MAX], |v: &i16| *v as u16 as u64);
+    conv!(i32, "i", vec![0, -1, 0x01020304, i32::MIN, i32::MAX], |v: &i32| *v as u32 as u64);
+    conv!(i64, "x", vec![0, -1, 0x0102030405060708, i64::MIN, i64::MAX], |v: &i64| *v as u64);
+    conv!(bool, "b", vec![false, true], |v: &bool| *v as u64);
+    conv!(
+        f64,
+        "d",
+        vec![0.0, -0.0, 1.5, -1.5, f64::INFINITY, f64::NEG_INFINITY, f64::MIN_POSITIVE, f64::from_bits(1), f64::from_bits(0x8000000000000001), f64::from_bits(0x7ff8000000000001), f64::from_bits(0xfff8000000000000), f64::from_bits(0x7ff0000000000001), f64::from_bits(0x0102030405060708), f64::MAX, f64::MIN],
+        |v: &f64| v.to_bits()
+    );
+    // strings: owned and borrowed
+    for s in ["", "a", "hello", "\u{fc}n\u{ef}", "12345678", "a b"] {
+        let owned: Param = Param::from(s.to_string());
+        let borrowed: Param = Param::from(s);
+        for bo in ORDERS {
+            for phase in [0usize, 3] {
+                let want = marshal_at(&s, bo, phase);
+                let a = bytes_of_param(&owned, bo, phase);
+                let b = bytes_of_param(&borrowed, bo, phase);
+                out.hit("conversion_case");
+                if a != want || b != want || want.is_none() {
+                    out.violation(&format!("c16.conv s:{:?} {} {}", s, bo_name(bo), phase), &format!("Param::from(String) {:?}, Param::from(&str) {:?}, typed {:?}", a.map(|x| hex(&x)), b.map(|x| hex(&x)), want.map(|x| hex(&x))));
+                }
+            }
+        }
+        // (the owned variant converts back to String, the borrowed one to &str: each its own way)
+        if let (Param::Base(bo_), Param::Base(bb)) = (&owned, &borrowed) {
+            if String::try_from(bo_).ok().as_deref() != Some(s) || <&str>::try_from(bb).ok() != Some(s) {
+                out.violation(&format!("c16.conv s:{:?}", s), "TryFrom<&Base> for String (owned) / &str (borrowed) does not give the string back");
+            }
+        }
+    }
+    // containers built by TryFrom: an array from its elements (element type inferred / given), a mismatching element refused
+    let elems: Vec<Param> = vec![Param::from(1u32), Param::from(0x01020304u32), Param::from(u32::MAX)];
+    let typed: Vec<u32> = vec![1, 0x01020304, u32::MAX];
+    let inferred = Container::try_from(elems.clone()).map(Param::from);
+    let given = Container::try_from((<u32 as Signature>::signature(), elems.clone())).map(Param::from);
+    for (how, c) in [("inferred", inferred), ("given", given)] {
+        match c {
+            Ok(p) => {
+                for bo in ORDERS {
+                    for phase in [0usize, 1, 4] {
+                        out.hit("conversion_case");
+                        if bytes_of_param(&p, bo, phase) != marshal_at(&typed, bo, phase) {
+                            out.violation(&format!("c16.conv array-{} {} {}", how, bo_name(bo), phase), "Container::try_from(elements) and Vec<u32> give different bytes");
+                        }
+                    }
+                }
+            }
+            Err(_) => out.violation(&format!("c16.conv array-{}", how), "Container::try_from refused a homogeneous array"),
+        }
+    }
+    let mixed: Vec<Param> = vec![Param::from(1u32), Param::from("x")];
+    if Container::try_from(mixed.clone()).is_ok() || Container::try_from((<u32 as Signature>::signature(), mixed)).is_ok() {
+        out.violation("c16.conv array-mixed", "Container::try_from accepted an array whose elements have different types");
+    }
+    out.hit("conversions_done");
+}
+
 /// has_sig of catalogue types and of the derived structs against many valid signatures
 fn run_has_sig(out: &mut Out, rng: &mut Prng, per_type: usize) {
     let mut sigs: Vec<String> = Vec::new();
@@ -495,9 +634,10 @@ pub fn run(cfg: &Cfg) {
     run_enums(&mut out, &mut rng, if cfg.thorough { 200 } else { 12 });
     run_unknown(&mut out, &mut rng, if cfg.thorough { 8 } else { 1 });
     run_has_sig(&mut out, &mut rng, if cfg.thorough { 60 } else { 8 });
+    run_conversions(&mut out);
     let _ = (ObjectPath::new("/").is_ok(), SignatureWrapper::new("").is_ok());
     out.finish(
-        "generic derived structs (G1<T> at three T, G2<A,B> at three (A,B), a lifetime-generic one; several instantiations per process in varying order) vs the tuple of their fields: bytes and the signature asked five ways (signature(), sig_str into a non-empty buffer, has_sig, body signature after push_param, signature inside push_variant), the same five ways for every catalogue type; 4 derived structs vs the tuple of their fields vs the Param tree (bytes, signature, cross decoding) x generated values x {LE,BE} x 8 offsets; 3 cases of a derived enum, 4 of a dbus_variant_sig! enum, 3 of a dbus_variant_var! enum vs the typed variant wrapper vs the Param variant; variants of every catalogue type outside the enums' cases placed between other values of a body (error without moving / Catchall with the following values intact); has_sig of every catalogue type and of the derived structs against valid signatures (shorter, longer, different structs included); distinct by request",
+        "the conversions of params::conversion (Param::from by value and by reference for every basic type at boundary values incl. -0.0, NaN payloads, extreme integers; TryFrom<&Base> back; arrays through Container::try_from) vs the typed API; generic derived structs (G1<T> at three T, G2<A,B> at three (A,B), a lifetime-generic one; several instantiations per process in varying order) vs the tuple of their fields: bytes and the signature asked five ways (signature(), sig_str into a non-empty buffer, has_sig, body signature after push_param, signature inside push_variant), the same five ways for every catalogue type; 4 derived structs vs the tuple of their fields vs the Param tree (bytes, signature, cross decoding) x generated values x {LE,BE} x 8 offsets; 3 + 4 cases of two derived enums (named fields, several unnamed fields, ONE unnamed field that is a tuple / a derived struct / an array / a string), 4 of a dbus_variant_sig! enum, 3 of a dbus_variant_var! enum vs the typed variant wrapper vs the Param variant; variants of every catalogue type outside the enums' cases placed between other values of a body (error without moving / Catchall with the following values intact); has_sig of every catalogue type and of the derived structs against valid signatures (shorter, longer, different structs included); distinct by request",
         false,
     );
 }
